@@ -78,3 +78,51 @@ Proof.
     + intros q Hq. apply B in Hq. rewrite C1 in Hq. eapply remove_position_subset; eauto.
     + intros e [<-|He]; [|apply C; assumption]. cbn. intros Hq. apply B in Hq. rewrite C1 in Hq. eapply remove_position_not_in; eauto.
 Qed.
+
+(* ---------- TPE: the best / worst split is a partition of the training set ---------- *)
+From Coq Require Import Permutation.
+
+Lemma nat_mem_In x l : nat_mem x l = true <-> In x l.
+Proof.
+  induction l as [|y l IH]; cbn; [split; [discriminate|contradiction]|].
+  rewrite orb_true_iff, IH, Nat.eqb_eq. split; intros [H|H]; auto.
+Qed.
+Lemma nodup_b_NoDup l : nodup_b l = true -> NoDup l.
+Proof.
+  induction l as [|x l IH]; cbn; [constructor|]. intros H. apply andb_prop in H. destruct H as [A B].
+  constructor; [|apply IH; exact B]. intros Hin. apply nat_mem_In in Hin. rewrite Hin in A. discriminate.
+Qed.
+
+Lemma perm_of_range perm n : is_perm_of_range perm n = true -> Permutation perm (seq 0 n).
+Proof.
+  unfold is_perm_of_range. intros H. apply andb_prop in H. destruct H as [H C]. apply andb_prop in H. destruct H as [A B].
+  apply Nat.eqb_eq in A. apply nodup_b_NoDup in B.
+  apply NoDup_Permutation_bis; [exact B|rewrite seq_length; lia|].
+  intros x Hx. apply in_seq. rewrite forallb_forall in C. specialize (C x Hx). apply Nat.ltb_lt in C. lia.
+Qed.
+
+Lemma seq_nth_map {A} (xs : list A) d : map (fun i => nth i xs d) (seq 0 (length xs)) = xs.
+Proof.
+  induction xs as [|x xs IH]; cbn; [reflexivity|]. f_equal. rewrite <- seq_shift, map_map. exact IH.
+Qed.
+
+Lemma firstn_last_n {A} (l : list A) k : (k <= length l)%nat -> firstn (length l - k) l ++ last_n k l = l.
+Proof. intros H. unfold last_n. apply firstn_skipn. Qed.
+
+(* every training point is in exactly one of the two groups: the groups, read through the index lists, are a permutation of X *)
+Theorem tpe_split_partition {A} (xs : list A) (d : A) perm n_best :
+  is_perm_of_range perm (length xs) = true -> (n_best <= length xs)%nat ->
+  let '(ib, iw) := tpe_split perm n_best in
+  Permutation (map (fun i => nth i xs d) iw ++ map (fun i => nth i xs d) ib) xs /\ length ib = n_best.
+Proof.
+  intros HP Hn. unfold tpe_split.
+  assert (HL : length perm = length xs).
+  { unfold is_perm_of_range in HP. apply andb_prop in HP. destruct HP as [HP _]. apply andb_prop in HP. destruct HP as [HP _].
+    apply Nat.eqb_eq in HP. exact HP. }
+  split.
+  - rewrite <- map_app, firstn_last_n by lia.
+    transitivity (map (fun i => nth i xs d) (seq 0 (length xs))).
+    + apply Permutation_map. apply perm_of_range. exact HP.
+    + rewrite seq_nth_map. reflexivity.
+  - unfold last_n. rewrite skipn_length. lia.
+Qed.
